@@ -915,11 +915,16 @@ impl tower::Service<Request<Bytes>> for Svc {
         };
         let poison = req.headers().contains_key("x-panic");
         let busy = Duration::from_millis(req.headers().get("x-busy-ms").and_then(|v| v.parse().ok()).unwrap_or(0));
+        // a synchronous, CPU-bound stretch at the start of the handler's first poll
+        let burn = Duration::from_millis(req.headers().get("x-burn-ms").and_then(|v| v.parse().ok()).unwrap_or(0));
         Box::pin(async move {
             if poison {
                 panic!("{DELIBERATE_PANIC}");
             }
             hold_current_task(plan.hold);
+            if !burn.is_zero() {
+                tokio::time::sim_advance_without_yield(burn);
+            }
             busy_on_a_hot_resource(busy).await;
             if !plan.delay.is_zero() {
                 tokio::time::sleep(plan.delay).await;
